@@ -162,9 +162,9 @@ Definition snap_spec (cap : Z) (w : list item) (s : snap) : bool :=
   && probes_eqb (fun k => probe_code (spec_exist (Z.to_N k) w) (spec_get (Z.to_N k) w)) (s_probes s).
 
 (** Result: 0 = the implementation satisfies the spec on the whole history;
-    1 = the first divergence is known finding 1 (Push on a queue of capacity
-        <= 0 panics instead of answering ErrMemFull);
-    2 = any other divergence. *)
+    2 = some divergence.  (Former known finding 1 — Push on a queue of capacity
+    <= 0 panicked instead of answering ErrMemFull — is fixed; a panic is a
+    divergence like any other.) *)
 Fixpoint spec_ok (cap : Z) (all : list item) (l : list item) (steps : list dstep) : N :=
   match steps with
   | [] => 0%N
@@ -181,12 +181,7 @@ Fixpoint spec_ok (cap : Z) (all : list item) (l : list item) (steps : list dstep
             | None => 2%N
             end
         end
-      else
-        match o, r with
-        | OPush _, IErr 4 =>
-            if (cap <=? 0) && res_eqb r' (IErr 2) then 1%N else 2%N
-        | _, _ => 2%N
-        end
+      else 2%N
   end.
 
 Definition check_case (c : case) : verdict :=
@@ -200,7 +195,6 @@ Definition check_case (c : case) : verdict :=
           if negb det then (m, false, 0%N)
           else match sc with
                | 0%N => (m, true, 0%N)
-               | 1%N => (m, false, 1%N)
                | _ => (m, false, 0%N)
                end
       end
